@@ -1,4 +1,5 @@
 import Rare.Spec.C19
+import Rare.Base.F64Str
 /-!
 Executable model of `pkg/expressions/stdmath` (tokenizer.go, parser.go, ops.go, simplify.go,
 expression.go) as of the repaired code (`%` by zero and negative shift counts give NaN, a
@@ -147,7 +148,7 @@ def digitsBase (base : Nat) : Bytes → Nat → Option Nat
     | none => none
 
 /-- `strconv.ParseInt(s, 0, 64)` for the spellings a literal token can have (no sign: `+`/`-`
-    are operators; underscores are declared unmodelled by `parseNum`). -/
+    are operators) and no underscore; `parseIntU` adds the underscores. -/
 def parseIntLit (s : Bytes) : Option Int :=
   match s with
   | [] => none
@@ -167,6 +168,40 @@ def parseIntLit (s : Bytes) : Option Int :=
     match digitsBase 10 s 0 with
     | some n => if n ≤ 9223372036854775807 then some (n : Int) else none
     | none => none
+
+/-- The digit loop of `ParseUint` with `base0`: `c == '_'` is skipped. -/
+def digitsBaseU (base : Nat) : Bytes → Nat → Option Nat
+  | [], acc => some acc
+  | b :: r, acc =>
+    if b = 95 then digitsBaseU base r acc
+    else match digitVal b with
+    | some d => if d < base then digitsBaseU base r (acc * base + d) else none
+    | none => none
+
+/-- `strconv.ParseInt(s, 0, 64)` on a literal token, underscores included (`1_000`, `0x_ff`: with base
+    argument 0 the digit loop skips `_`, and afterwards `underscoreOK(s)` must hold: underscores only
+    between digits or between the base prefix and a digit).  Without an underscore this is `parseIntLit`. -/
+def parseIntU (s : Bytes) : Option Int :=
+  if s.contains 95 then
+    match s with
+    | [] => none
+    | 48 :: rest =>
+      let (base, ds) : Nat × Bytes :=
+        match rest with
+        | c :: r2 =>
+          if s.length ≥ 3 && lowerB c = 98 then (2, r2)
+          else if s.length ≥ 3 && lowerB c = 111 then (8, r2)
+          else if s.length ≥ 3 && lowerB c = 120 then (16, r2)
+          else (8, rest)
+        | [] => (8, rest)
+      match digitsBaseU base ds 0 with
+      | some n => if F64.underscoreOK s && decide (n ≤ 9223372036854775807) then some (n : Int) else none
+      | none => none
+    | _ =>
+      match digitsBaseU 10 s 0 with
+      | some n => if F64.underscoreOK s && decide (n ≤ 9223372036854775807) then some (n : Int) else none
+      | none => none
+  else parseIntLit s
 
 def spanDigits : Bytes → Bytes × Bytes
   | [] => ([], [])
@@ -194,30 +229,32 @@ def parseDecLit (s : Bytes) : Option (Nat × Int) :=
 /-- A decimal-only reading of `strconv.ParseFloat(s, 64)` on a literal token (no sign can occur:
     `+`/`-` split tokens), for instances that bring their own conversion `ofDec m e` of the decimal
     `m·10^e` (`none` = out of range): `inf`, `infinity`, `nan` in any case, `digits[.digits][e digits]`;
-    hexadecimal floats are declared unmodelled.  (The exact rational instance and the native-`Float`
-    cross-check instance use it; the IEEE instance uses the modelled `F64.parseFloat` instead.) -/
+    hexadecimal floats and underscores in a numeric spelling (`1_0.5`) are declared unmodelled.
+    (The exact rational instance and the native-`Float` cross-check instance use it; the IEEE instance
+    uses the modelled `F64.parseFloat` instead, which covers those spellings too.) -/
 def decParse {α : Type} (ofDec : Nat → Int → Option α) (inf nan : α) (s : Bytes) : NumRes α :=
   let low := s.map lowerB
-  if low = [105, 110, 102] || low = [105, 110, 102, 105, 110, 105, 116, 121] then .val inf
-  else if low = [110, 97, 110] then .val nan
-  else if low.take 2 = [48, 120] then
-    if low.contains 112 then .unmodelled "hexfloat" else .notNum
-  else match parseDecLit s with
-  | some (m, e) =>
-    match ofDec m e with
-    | some v => .val v
-    | none => .notNum         -- ParseFloat reports a range error; the token is rejected
-  | none => .notNum
-
-/-- `ParseInt(s, 0, 64)` then `ParseFloat(s, 64)` (`compileToken`, numeric literal).  Underscores in a
-    numeric spelling (`1_000`: accepted by both Go parsers under the `underscoreOK` rule) are outside
-    the modelled `ParseInt` and declared unmodelled. -/
-def parseNum {α : Type} (A : Arith α) (s : Bytes) : NumRes α :=
   match s with
   | [] => .notNum
   | c :: _ =>
     if (isDigitB c || c = 46) && s.contains 95 then .unmodelled "underscore"
-    else match parseIntLit s with
+    else if low = [105, 110, 102] || low = [105, 110, 102, 105, 110, 105, 116, 121] then .val inf
+    else if low = [110, 97, 110] then .val nan
+    else if low.take 2 = [48, 120] then
+      if low.contains 112 then .unmodelled "hexfloat" else .notNum
+    else match parseDecLit s with
+    | some (m, e) =>
+      match ofDec m e with
+      | some v => .val v
+      | none => .notNum         -- ParseFloat reports a range error; the token is rejected
+    | none => .notNum
+
+/-- `ParseInt(s, 0, 64)` then `ParseFloat(s, 64)` (`compileToken`, numeric literal). -/
+def parseNum {α : Type} (A : Arith α) (s : Bytes) : NumRes α :=
+  match s with
+  | [] => .notNum
+  | _ :: _ =>
+    match parseIntU s with
     | some v => .val (A.ofInt v)
     | none => A.parseFloat s
 
